@@ -5,44 +5,99 @@
 package racelog
 
 import (
+	"fmt"
 	"os"
+	"sort"
 	"strings"
 )
 
 var logPrefix = os.Getenv("VERIF_RACE_LOG")
 
-func dir() string { return strings.TrimSuffix(logPrefix, "/race") + "/" }
+// own returns the report file of this process (GORACE log_path=prefix makes
+// the runtime write prefix.<pid>); other worker processes share the directory.
+func own() string { return fmt.Sprintf("%s.%d", logPrefix, os.Getpid()) }
 
-// Reports returns the number of race reports written so far.
+// Reports returns the number of race reports this process has written so far.
 func Reports() int {
 	if logPrefix == "" {
 		return 0
 	}
-	n := 0
-	ents, _ := os.ReadDir(dir())
-	for _, e := range ents {
-		if strings.HasPrefix(e.Name(), "race.") {
-			b, _ := os.ReadFile(dir() + e.Name())
-			n += strings.Count(string(b), "WARNING: DATA RACE")
-		}
-	}
-	return n
+	b, _ := os.ReadFile(own())
+	return strings.Count(string(b), "WARNING: DATA RACE")
 }
 
-// Last returns the text of the most recent report.
+// Last returns the text of the most recent report of this process.
 func Last() string {
-	ents, _ := os.ReadDir(dir())
+	b, _ := os.ReadFile(own())
 	out := ""
-	for _, e := range ents {
-		if strings.HasPrefix(e.Name(), "race.") {
-			b, _ := os.ReadFile(dir() + e.Name())
-			if i := strings.LastIndex(string(b), "WARNING: DATA RACE"); i >= 0 {
-				out = string(b[i:])
+	if i := strings.LastIndex(string(b), "WARNING: DATA RACE"); i >= 0 {
+		out = string(b[i:])
+	}
+	if len(out) > 30000 {
+		out = out[:30000]
+	}
+	return out
+}
+
+// Key identifies a report by its two access stacks: for each side the
+// innermost repository function, the repository function the harness called
+// (the API entry point) and the markers of known lazy-evaluation call sites.
+// The two sides are sorted so that the key does not depend on which access
+// the detector saw second.
+func Key(rep string) string {
+	var sides []string
+	for _, st := range stacks(rep) {
+		site, api, marks := "unknown", "unknown", ""
+		for i, f := range st {
+			if strings.Contains(f, "internal/verif") {
+				if i > 0 {
+					api = short(st[i-1])
+				}
+				break
+			}
+			if site == "unknown" && strings.HasPrefix(f, "cuelang.org/go/") {
+				site = short(f)
 			}
 		}
+		for i := 1; i < len(st); i++ {
+			if strings.HasSuffix(st[i], "cue.(*Iterator).Next()") && strings.HasSuffix(st[i-1], "adt.(*Vertex).Finalize()") {
+				marks = " lazy-finalize-in-Iterator.Next"
+			}
+		}
+		sides = append(sides, fmt.Sprintf("%s [via %s%s]", site, api, marks))
 	}
-	if len(out) > 5000 {
-		out = out[:5000]
+	sort.Strings(sides)
+	return strings.Join(sides, " vs ")
+}
+
+func short(f string) string {
+	f = strings.TrimSuffix(f, "()")
+	return strings.TrimPrefix(f, "cuelang.org/go/")
+}
+
+// stacks returns the function names of the two access stacks of a report.
+func stacks(rep string) [][]string {
+	var out [][]string
+	var cur []string
+	in := false
+	for _, l := range strings.Split(rep, "\n") {
+		t := strings.TrimSpace(l)
+		switch {
+		case strings.HasPrefix(t, "Read at ") || strings.HasPrefix(t, "Write at ") || strings.HasPrefix(t, "Previous read at ") || strings.HasPrefix(t, "Previous write at ") || strings.HasPrefix(t, "Atomic ") || strings.HasPrefix(t, "Previous atomic "):
+			in = true
+			cur = nil
+		case t == "" && in:
+			in = false
+			out = append(out, cur)
+			if len(out) == 2 {
+				return out
+			}
+		case in && !strings.HasPrefix(t, "/") && t != "":
+			cur = append(cur, t)
+		}
+	}
+	if in {
+		out = append(out, cur)
 	}
 	return out
 }
